@@ -28,6 +28,15 @@ func runC18(c *Ctx, tier string) {
 	c18Lookup(c, r)
 	c18Lint(c, r)
 	c18Generator(c, r)
+	// premise of every per-lint rule of this property: the verdict is computed on the
+	// object as parsed and on immutable tables — no lint method (any lint may run
+	// earlier in the same pass) writes memory reachable from the linted object or a
+	// package-level variable (C05 rules 1-2)
+	{
+		csP := BuildCensus(c)
+		c05Effects(c, r, csP, NewEffects(c))
+	}
+	cnIsIPTable(c, r)
 	r.Finish()
 }
 
@@ -674,4 +683,41 @@ func c18Generator(c *Ctx, r *Report) {
 		}
 	}
 	r.Check(okDom, "generator", "renderGTLDMap", rg.Pos(), "template rendered only after validation succeeded", "the gTLD map template can be rendered although validateGTLDs failed (or is no longer called)")
+}
+
+// cnIsIPTable: util.CommonNameIsIP(c) is "net.ParseIP(c.Subject.CommonName) != nil"
+// and nothing else. The lints that skip an IP common name (TLD validity) or judge
+// it as an address (reserved IP) rely on exactly the textual forms net.ParseIP
+// accepts; another parser (netip.ParseAddr accepts zones, a pre-filter may reject
+// upper-case hex) changes which names are treated as host names.
+func cnIsIPTable(c *Ctx, r *Report) {
+	fn := c.Func("util", "CommonNameIsIP")
+	outs, abort := Enumerate(fn, SymOpts{})
+	bad := abort
+	cp := fn.Params[0].Name()
+	parse := "net.ParseIP(" + cp + ".Subject.CommonName)"
+	for _, isIP := range []bool{true, false} {
+		if bad != "" {
+			break
+		}
+		oracle := func(t *T) (interface{}, bool) {
+			if t.String() == parse {
+				if isIP {
+					return errVal{}, true
+				}
+				return nil, true
+			}
+			return nil, false
+		}
+		sel, err := Select(outs, oracle)
+		if err != nil || len(sel) != 1 || sel[0].Kind != "return" || len(sel[0].Results) != 1 {
+			bad = fmt.Sprintf("CommonNameIsIP is not a function of net.ParseIP(c.Subject.CommonName) alone: %v", err)
+			break
+		}
+		v, err := Eval(sel[0].Results[0], oracle)
+		if err != nil || v != isIP {
+			bad = fmt.Sprintf("CommonNameIsIP returns %v when net.ParseIP(common name) is non-nil=%v (%v)", v, isIP, err)
+		}
+	}
+	r.Check(bad == "", "cn-is-ip", "util.CommonNameIsIP", fn.Pos(), "net.ParseIP(c.Subject.CommonName) != nil", bad)
 }
